@@ -18,6 +18,7 @@ import sys
 
 from .. import common as C
 from .. import enc_expr as X
+from .. import forms as F
 from .. import gen_expr as GE
 
 PROP = "C11"
@@ -34,6 +35,7 @@ RULE = ("(a) structured stream over a common pool of factors (harness/gen_expr.p
         "non-trivial when the expression contains a product with >=2 factors sharing their first child name, or a "
         "fraction, or a sum that simplifies, and the canonical form differs from the input.")
 ASSUMPTIONS = [
+    "argument FORMS (harness/forms.py; chosen deterministically per case, stored in the case, tagged form_*): the ordering handed to canonicalize as list / tuple (the declared Sequence) and as dict keys / generator / iterator / map (accepted by its consumer dsl.ensure_ordering; only forms that keep the caller's sequence, so that both calls of a case get 'the same ordering' whatever y0 does with it), plain variables as Variable objects, str names or mixed, positional or by keyword, no ordering as omitted / None / ordering=None -- independently for the two calls of a case (first / second canonicalisation, the two presentations), so 'identical objects under the same ordering' is also checked across forms of that ordering; in the fresh-interpreter batches the form is a function of the position in the batch (the same under every hash seed)",
     "hash seeds / construction order is a Python-runtime clause (R): decided by running fresh interpreters under several PYTHONHASHSEEDs, not by a theorem (the model represents sets as sorted lists)",
     "normal_form (idempotence + presentation invariance of the public entry point, explicit ordering or ordering=None recomputed at every call) is proved for ALL expressions; an explicit ordering is re-sorted by variable name by ensure_ordering: the hypothesis NameMonotone of the level-table lemmas, shown necessary by a counterexample",
     "presentation invariance is an equivalence (Present is symmetric): e has the canonical form a iff its presentation e' has; when canonicalize raises on e (Q-factor, uncovered name, zero denominator) it raises on every presentation, possibly with a different exception class, and nothing else is claimed",
@@ -140,7 +142,21 @@ def structured_cases(rng: random.Random, n: int):
     return out
 
 
+def _slots(case):
+    if case["kind"] in ("idem", "perm"):
+        return dict(F.canonicalize_slots(case["ordering"], "", True), **F.canonicalize_slots(case["ordering"], "_2", True))
+    return {}
+
+
+def _forms(case):
+    return F.forms_of(case, _slots(case))
+
+
 def cases(rng: random.Random, tier: str):
+    return [F.assign(c, _slots(c)) for c in _cases(rng, tier)]
+
+
+def _cases(rng: random.Random, tier: str):
     if os.environ.get("VERIF_EXPR_FAST_SEARCH") == "1":
         tier = "quick"      # tools/mutate_expr.py only: keeps the runner's extended search at the size of the quick stream
     out = _load_corpus()
@@ -173,13 +189,15 @@ def cases(rng: random.Random, tier: str):
 ERRS = (KeyError, TypeError, ZeroDivisionError, ValueError, AttributeError, IndexError)
 
 
-def _canon(enc, ordering):
+def _canon(enc, ordering, fm=None, suffix=""):
     from y0.mutate import canonicalize
 
     e = X.dec_expr(enc)
     o = None if ordering is None else [X.dec_var(v) for v in ordering]
     try:
-        return canonicalize(e, o), None
+        if fm is None:
+            return canonicalize(e, o), None
+        return F.call_canonicalize(canonicalize, e, o, fm, suffix), None
     except ERRS as ex:
         return None, type(ex).__name__
 
@@ -210,16 +228,17 @@ def run_python(case):
     from y0.mutate import canonicalize
 
     kind = case["kind"]
+    fm = _forms(case)
     if kind == "idem":
-        c1, err = _canon(case["e"], case["ordering"])
+        c1, err = _canon(case["e"], case["ordering"], fm)
         tags = {"kind": kind, "well_scoped": GE.well_scoped(case["e"]), "depth": GE.depth(case["e"]),
-                "ordering": "none" if case["ordering"] is None else "explicit", **_feat_tags(case)}
+                "ordering": "none" if case["ordering"] is None else "explicit", **_feat_tags(case), **F.tags(fm)}
         if c1 is None:
             return {"out": ["err"], "fail": None, "nontrivial": False, "tags": {**tags, "outcome": "err"}}
         o = None if case["ordering"] is None else [X.dec_var(v) for v in case["ordering"]]
         fail = None
         try:
-            c2 = canonicalize(c1, o)
+            c2 = F.call_canonicalize(canonicalize, c1, o, fm, "_2")
             out = ["ok", X.to_str_tree(X.enc_expr(c1)), X.to_str_tree(X.enc_expr(c2))]
             if c1 != c2 or str(c1) != str(c2):
                 fail = f"not idempotent: canonicalize({X.dec_expr(case['e'])}) = {c1} but canonicalising again gives {c2}"
@@ -229,11 +248,11 @@ def run_python(case):
         return {"out": out, "fail": fail, "nontrivial": _interesting(case["e"]) and out[0] == "ok" and out[1] != X.to_str_tree(case["e"]),
                 "tags": {**tags, "outcome": out[0]}}
     if kind == "perm":
-        c1, e1 = _canon(case["e"], case["ordering"])
-        c2, e2 = _canon(case["e2"], case["ordering"])
+        c1, e1 = _canon(case["e"], case["ordering"], fm)
+        c2, e2 = _canon(case["e2"], case["ordering"], fm, "_2")
         tags = {"kind": kind, "well_scoped": GE.well_scoped(case["e"]), "depth": GE.depth(case["e"]),
                 "shuffled": case["e"] != case["e2"], "ordering": "none" if case["ordering"] is None else "explicit",
-                **_feat_tags(case)}
+                **_feat_tags(case), **F.tags(fm)}
         fail = None
         if c1 is None and c2 is None:
             out = ["err"]
@@ -259,6 +278,7 @@ sys.path.insert(0, VERIF)
 sys.path.insert(0, REPO_SRC)
 import warnings; warnings.filterwarnings("ignore")
 from harness import enc_expr as X
+from harness import forms as F
 from y0.mutate import canonicalize
 from y0 import dsl
 rng = random.Random(SHUFFLE)
@@ -268,12 +288,14 @@ def shuffled_frozenset(xs):
 # construction order of the set-valued fields is shuffled as well
 X_dec_var, X_dec_expr = X.dec_var, X.dec_expr
 out = []
-for enc, ordering in BATCH:
+for idx, (enc, ordering) in enumerate(BATCH):
     try:
         o = None if ordering is None else [X.dec_var(v) for v in ordering]
         if o is not None:
             rng.shuffle(o)
-        c = canonicalize(X.dec_expr(enc), o)
+        # the argument form is a function of the position in the batch only (the same under every hash seed)
+        fm = F.derive({"i": idx}, F.canonicalize_slots(ordering, "", True))
+        c = F.call_canonicalize(canonicalize, X.dec_expr(enc), o, fm)
         out.append([json.dumps(X.to_str_tree(X.enc_expr(c))), str(c)])
     except (KeyError, TypeError, ZeroDivisionError, ValueError) as ex:
         out.append(["err", "err"])
